@@ -337,7 +337,7 @@ REGISTRY = {
         "assumptions": COMMON_ASSUMPTIONS,
     },
     "C03": {
-        "rules": [caches.rule_derived_cache_invalidate, caches.rule_stale_receiver, caches.rule_inplace_returns, inplace.rule_inplace_effect, inplace.rule_alias_spelling, inplace.rule_array_immut, inplace.rule_operator_pure, inplace.rule_axis_by_label, inplace.rule_positional_handover],
+        "rules": [caches.rule_derived_cache_invalidate, caches.rule_stale_receiver, caches.rule_inplace_returns, inplace.rule_inplace_effect, inplace.rule_alias_spelling, inplace.rule_array_immut, inplace.rule_operator_pure, inplace.rule_axis_by_label, inplace.rule_positional_handover, order.rule_gauge_order_binding],
         "explanation": (
             "static (AST + interprocedural alias/effect analysis): decides the non-mutation clause of C03 — "
             "every plain spelling of an (f, f_) pair leaves its receiver, the tensors it shares and their "
@@ -510,6 +510,7 @@ _ALSO4 = {
     "C04": " An index consumed by a simplification pass on the whole network is proven not to be an output index on every path; the result of isometrize() is flagged on the side its shape makes isometric.",
     "C05": " A split driver with a fixed form is judged isometric by its registered default, not by the requested absorb; the eigenvalue selection of the iterative hermitian driver, the error after the bond cap and the window size are decided by sibling / ordering rules.",
     "C06": " The pair a swap-based gate acts on is the requested (i, j) in order.",
+    "C03": " Per-index gauges and the fuse that follows them enumerate the indices through one binding (the stored axis order of a tensor cannot separate them).",
     "C07": " Sites re-bound to a sorted version are not handed on next to the unpermuted operator (permutation-tracking MPS).",
     "C16": " A buffer capacity that grows by doubling is seeded with a value that is positive whenever the sizes are (sign / zero abstract evaluation).",
     "C08": " The record is updated only for the object handed back (satisfiability of fork vs in-place receiver); a compressed swap canonicalizes the pair before it moves the record.",
